@@ -27,6 +27,8 @@ static B0: [u8; 0] = [];
 static B1: [u8; 1] = [1];
 static B32: [u8; 32] = [9; 32];
 static B5: [u8; 5] = [1, 2, 3, 4, 5];
+static B40: [u8; 40] = [6; 40];
+static B300: [u8; 300] = [7; 300];
 
 // extension blocks and randoms that carry meaning for a peer, none for the automaton (the flows are defined on message kinds)
 static X_TICKET: [u8; 7] = [0, 35, 0, 3, 1, 2, 3];
@@ -58,6 +60,9 @@ fn variants_base(kind: &str) -> Vec<TlsMessage<'static>> {
             hs(H::ClientHello(TlsClientHelloContents::new(0x0303, &R1, Some(&B1), vec![], vec![], None))),
             hs(H::ClientHello(TlsClientHelloContents::new(0x0304, &R2, Some(&B32), vec![TlsCipherSuiteID(5)], vec![], Some(&B5)))),
             hs(H::ClientHello(TlsClientHelloContents::new(0x0303, &R1, Some(&B0), vec![], vec![], None))),
+            // (directly built values: a session id of any length is present)
+            hs(H::ClientHello(TlsClientHelloContents::new(0x0303, &R1, Some(&B40), vec![TlsCipherSuiteID(0x2f)], vec![], None))),
+            hs(H::ClientHello(TlsClientHelloContents::new(0x0301, &R2, Some(&B300), vec![], vec![TlsCompressionID(0)], Some(&B5)))),
         ],
         "ServerHello" => vec![
             hs(H::ServerHello(TlsServerHelloContents::new(0x0303, &R1, None, 0x2f, 0, None))),
@@ -113,6 +118,10 @@ fn variants_base(kind: &str) -> Vec<TlsMessage<'static>> {
         "Heartbeat" => vec![
             TlsMessage::Heartbeat(TlsMessageHeartbeat { heartbeat_type: TlsHeartbeatMessageType(1), payload_len: 0, payload: &B0 }),
             TlsMessage::Heartbeat(TlsMessageHeartbeat { heartbeat_type: TlsHeartbeatMessageType(2), payload_len: 5, payload: &B5 }),
+            // (directly built values whose fields disagree: the automaton reads the message KIND)
+            TlsMessage::Heartbeat(TlsMessageHeartbeat { heartbeat_type: TlsHeartbeatMessageType(1), payload_len: 0xffff, payload: &B5 }),
+            TlsMessage::Heartbeat(TlsMessageHeartbeat { heartbeat_type: TlsHeartbeatMessageType(255), payload_len: 1, payload: &B0 }),
+            TlsMessage::Heartbeat(TlsMessageHeartbeat { heartbeat_type: TlsHeartbeatMessageType(1), payload_len: 2, payload: &B32 }),
         ],
         "AlertWarning" => (0..=255u8).map(|c| TlsMessage::Alert(TlsMessageAlert { severity: TlsAlertSeverity(1), code: TlsAlertDescription(c) })).collect(),
         "AlertOther" => (0..=255u16).filter(|s| *s != 1).flat_map(|s| (0..=255u8).map(move |c| TlsMessage::Alert(TlsMessageAlert { severity: TlsAlertSeverity(s as u8), code: TlsAlertDescription(c) }))).collect(),
